@@ -44,7 +44,7 @@ TRUSTED = [
     'Driver/C09.lean: Python semantics of the operators on None/bool/int/str/list (`pyApply`, `pyEq`, `truthy`) - every oracle verdict on the implementation exercises it against CPython',
     'harness/props/c09.py adapter (builds the program on the real param.rx, reports value / exception class of every read, callbacks per update) and extract() (ast walk over class rx)',
     'list of dunders Python can dispatch (Props/C09.lean `dispatchable`; excluded on purpose: __round__, __contains__, __iter__, __bool__, __len__, __call__ - see the docstring) and of helpers (`requiredHelpers`)',
-    'correspondence is differential testing: model = code only on the programs executed',
+    'correspondence is differential testing: model = code only on the programs executed; besides every observable outcome it compares, after every statement, the internal flags (_dirty, _error_state set, _root._dirty_obj) of every node that has a counterpart in the model (roots, the copy made by _resolve_accessor, derived nodes; not attribute accessors)',
     'CPython: operator dispatch to reflected dunders, small-int / bool / None identity for `is`',
 ]
 ASSUMPTIONS = [
@@ -133,6 +133,8 @@ class _World:
         self.log = []
         self.nwatch = 0
         self.holders = []   # Parameterized instances whose parameter `v` holds an expression as a reference
+        self.cmp = []       # (model node id, rx object) whose internal flags are compared with the model's
+        self.accs = set()   # model ids of attribute accessors (rendered differently in the model)
 
     def arg(self, a):
         if 'L' in a:                      # a list holding references: resolve_ref(arg, recursive=True)
@@ -180,8 +182,24 @@ def run_impl(case):
     w = _World()
     steps = []
     try:
+        flags = []
+
+        quiet = [False]
+
+        def snap():
+            # not compared: after an operator was applied to an attribute accessor (the model's rendering reads the
+            # accessor at that point, the code does not), and at an update that raised in a program with holders
+            last = steps[len(flags)] if len(flags) < len(steps) else {}
+            if quiet[0] or (last.get('k') == 'set' and last.get('e') and w.holders):
+                flags.append([])
+            else:
+                flags.append([[i, bool(o._dirty), o._error_state is not None, bool(o._root._dirty_obj)] for i, o in w.cmp])
         for st in case['prog']:
+            if len(flags) < len(steps):
+                snap()
             s = st['s']
+            if s == 'op' and st['n'] in w.accs:
+                quiet[0] = True
             if s in ('lit', 'rootp', 'op', 'meth', 'attr', 'meth2', 'bind', 'where'):
                 try:
                     if s == 'lit':
@@ -220,6 +238,20 @@ def run_impl(case):
                         fn = ops.where(w.arg(st['x']), w.arg(st['y']))
                         w.params.append(('t',))
                         w.nodes.append(rx(fn))
+                    base = len(w.nodes) - NODES_OF[s]
+                    if s in ('lit', 'rootp', 'bind', 'where'):
+                        w.cmp.append((base, w.nodes[base]))
+                    elif s == 'op':
+                        if st['n'] not in w.accs:                      # the copy made by _resolve_accessor
+                            w.cmp.append((base, w.nodes[base + 1]._prev))
+                        w.cmp.append((base + 1, w.nodes[base + 1]))
+                    elif s == 'meth':
+                        w.cmp += [(base + 1, w.nodes[base + 2]._prev), (base + 2, w.nodes[base + 2])]
+                    elif s == 'meth2':
+                        w.cmp += [(base + 1, w.nodes[base + 2]._prev), (base + 2, w.nodes[base + 2]),
+                                  (base + 3, w.nodes[base + 4]._prev), (base + 4, w.nodes[base + 4])]
+                    elif s == 'attr':
+                        w.accs.add(base + 2)
                     if not isinstance(w.nodes[-1], rx):
                         return {'crash': f'{s} did not produce an rx: {type(w.nodes[-1]).__name__}'}
                     steps.append({'k': 'created'})
@@ -280,7 +312,9 @@ def run_impl(case):
                     steps.append({'k': 'readErr', 'e': exc_name(e)})
             else:
                 raise RuntimeError('unknown statement ' + s)
-        return {'steps': steps}
+        if len(flags) < len(steps):
+            snap()
+        return {'steps': steps, 'flags': flags}
     except Exception as e:
         return {'crash': f'{type(e).__name__}: {e}'[:300]}
 
